@@ -9,8 +9,10 @@ from aiu_trace_analyzer.pipeline.tools import PipelineContextTool
 
 
 class QueueingCounterContext(AbstractHashQueueContext):
-    def __init__(self) -> None:
+    def __init__(self, sorted_input: bool = True) -> None:
         super().__init__()
+        # False: events do not arrive sorted by ts (no clock-alignment stage in front), nothing is final before drain
+        self.sorted_input = sorted_input
 
     def create_counter(self, event: TraceEvent) -> list[TraceEvent]:
         qid = event["pid"]
@@ -72,6 +74,8 @@ class QueueingCounterContext(AbstractHashQueueContext):
 
         new_list += post_e
         aiulog.log(aiulog.TRACE, "QCC: new_list", new_list)
+        if not self.sorted_input:
+            return [], ready_list + new_list
         return ready_list, new_list
 
     def make_events(self, ready: list[tuple[float, int]], pid) -> list[TraceEvent]:
